@@ -673,6 +673,12 @@ def check_memo_keys(ctx, rep, rule='C11.M', only=None):
                         stores = [st for st in node.body if isinstance(st, ast.Assign) and any(self_attr(tg) == cache for tg in st.targets)]
                     else:
                         continue
+                    # a cache kept on the class (`Cls.C = E`, `type(self).C = E`, `self.__class__.C = E`) and read through self is shared by every instance and subclass
+                    if not stores:
+                        stores = [st for st in node.body if isinstance(st, ast.Assign) and any(
+                            isinstance(tg, ast.Attribute) and tg.attr == cache and (
+                                (isinstance(tg.value, ast.Name) and tg.value.id in (cname, 'cls'))
+                                or ast.unparse(tg.value) in ('type(self)', 'self.__class__')) for tg in st.targets)]
                     for st in stores:
                         n += 1
                         dep = {x.id for e in backward_slice(st.value, defs) for x in ast.walk(e) if isinstance(x, ast.Name) and x.id in params}
